@@ -34,17 +34,23 @@ Definition pcall_eqb (a b : Z * xrow) : bool := (fst a =? fst b) && xrow_eqb (sn
 Definition scitype_eqb (a b : scitype) : bool :=
   match a, b with Tabular, Tabular => true | TimeSeries, TimeSeries => true | _, _ => false end.
 
-(* the test doubles of props/c05.py: positional weighted sums (weights 1, 2, 3, ...) *)
+(* the test doubles of props/c05.py: positional weighted sums (weights 1, 2, 3, ...) of the input plus
+   a digest of the training data plus 1/2 - the outputs are deliberately NOT whole numbers, so that an
+   integer-typed buffer between the regressor and the next window shows.  All VALUES in the cases
+   (observations, inputs, outputs, forecasts) are given in the unit 1/2, i.e. doubled, hence integers:
+   2 * (wsum x + (wsum t + rows) + 1/2) = wsum (2x) + (wsum (2t) + 2 * rows) + 1.  The model only moves
+   values around, so it is indifferent to the unit; time labels, positions, horizons are not scaled. *)
 Fixpoint wsum_from (i : Z) (l : list Z) : Z :=
   match l with [] => 0 | v :: t => i * v + wsum_from (i + 1) t end.
 Definition wsum (l : list Z) : Z := wsum_from 1 l.
 Definition flat (x : xrow) : list Z := match x with RTab l => l | RPan p => concat p end.
 Definition dM : Type := (Z * Z)%type.      (* digest of the training target, number of targets *)
-Definition d_fit1 (X : list xrow) (t : list Z) : dM := (wsum t + zlen X, 1).
-Definition d_fitm (X : list xrow) (T : list (list Z)) : dM := (wsum (concat T) + zlen X, zlen (hd [] T)).
-Definition d_pred1 (m : dM) (x : xrow) : Z := wsum (flat x) + fst m.
+Definition d_fit1 (X : list xrow) (t : list Z) : dM := (wsum t + 2 * zlen X, 1).
+Definition d_fitm (X : list xrow) (T : list (list Z)) : dM :=
+  (wsum (concat T) + 2 * zlen X, zlen (hd [] T)).
+Definition d_pred1 (m : dM) (x : xrow) : Z := wsum (flat x) + fst m + 1.
 Definition d_predm (m : dM) (x : xrow) : list Z :=
-  map (fun j => wsum (flat x) + fst m + 7 * (j + 1)) (zrange 0 (snd m) 1).
+  map (fun j => wsum (flat x) + fst m + 1 + 14 * (j + 1)) (zrange 0 (snd m) 1).
 
 Definition model_run := reduce dM d_fit1 d_fitm d_pred1 d_predm.
 
